@@ -130,28 +130,29 @@ Theorem C03_slru_history : forall pc fc os,
 Proof. exact slru_history_safe. Qed.
 
 (** TwoQueueCache on the heap (three lists; ghost hits revive the ghost node, the node the ghost list
-    pushes out is unboxed exactly once) *)
+    pushes out is unboxed exactly once); the operations include the iterators over each of the three lists
+    ([qop_ok]: a mutable iterator has no clone phase) *)
 Theorem C03_twoq_step : forall h s ls o,
-  RQ h s ls -> twoq_inv ls ->
+  RQ h s ls -> twoq_inv ls -> qop_ok o ->
   exists h' s' ls' r, ht_step h s o = HOk (h', s', r) /\ lq_step ls o = Ok (ls', r) /\ RQ h' s' ls' /\ twoq_inv ls'.
 Proof. exact twoq_step_refines. Qed.
 
 Theorem C03_twoq_history : forall size rs es os,
-  (1 <= size)%nat -> (1 <= es)%nat ->
+  (1 <= size)%nat -> (1 <= es)%nat -> Forall qop_ok os ->
   exists h s ls outs h',
     ht_run (fst (ht_new heap0 size rs es)) (snd (ht_new heap0 size rs es)) os = HOk (h, s, outs) /\
     lq_run (twoq_new size rs es) os = Ok (ls, outs) /\ RQ h s ls /\
     ht_drop h s = HOk h' /\ (forall a, cells h' a = Free).
 Proof. exact twoq_history_safe. Qed.
 
-(** AdaptiveCache on the heap (four lists) *)
+(** AdaptiveCache on the heap (four lists, the iterators over each of them included) *)
 Theorem C03_arc_step : forall h s ls o,
-  RA h s ls [] -> arc_inv ls ->
+  RA h s ls [] -> arc_inv ls -> aop_ok o ->
   exists h' s' ls' r, ha_step h s o = HOk (h', s', r) /\ la_step ls o = Ok (ls', r) /\ RA h' s' ls' [] /\ arc_inv ls'.
 Proof. exact arc_step_refines. Qed.
 
 Theorem C03_arc_history : forall size os,
-  (1 <= size)%nat ->
+  (1 <= size)%nat -> Forall aop_ok os ->
   exists h s ls outs h',
     ha_run (fst (ha_new heap0 size)) (snd (ha_new heap0 size)) os = HOk (h, s, outs) /\
     la_run (arc_new size) os = Ok (ls, outs) /\ RA h s ls [] /\
@@ -212,8 +213,19 @@ Theorem C03_clone : forall h q s,
   exists h' q', h_clone_replace h q = HOk (h', q') /\ R h' q' s /\ hhead q' = fresh h /\ htail q' = S (fresh h).
 Proof. exact clone_refines. Qed.
 
-(** every history of public calls and clones of a RawLRU, then the final drop *)
+(** the whole iterator script of the harness (fresh iterator, clone of the iterator, both continue) on one list
+    of a family: the yields of the layer-L machine, exactly its writes, nothing else touched *)
+Theorem C03_iter_script : forall h F1 q l F2 fl kd pre pa pb,
+  fam h (F1 ++ (q, l) :: F2) fl -> (ik_mut kd = true -> pb = []) ->
+  exists h' l',
+    h_iter_script h q kd pre pa pb = HOk (h', fst (iter_script kd pre pa pb (entries l))) /\
+    fam h' (F1 ++ (q, l') :: F2) fl /\ entries l' = snd (iter_script kd pre pa pb (entries l)) /\
+    addrs l' = addrs l /\ (forall x, ~ In x (addrs l) -> cells h' x = cells h x).
+Proof. exact fam_iter_script. Qed.
+
+(** every history of public calls, iterator scripts and clones of a RawLRU, then the final drop *)
 Theorem C03_clone_history : forall c cb os,
+  Forall hcop_ok os ->
   exists h q h',
     hcrun (fst (hnew heap0 c)) (snd (hnew heap0 c)) os = HOk (h, q, snd (lcrun (lru_new c cb) os)) /\
     R h q (fst (lcrun (lru_new c cb) os)) /\
@@ -244,3 +256,4 @@ Print Assumptions C03_family_iter.
 Print Assumptions C03_family_clone.
 Print Assumptions C03_clone.
 Print Assumptions C03_clone_history.
+Print Assumptions C03_iter_script.
